@@ -163,6 +163,8 @@ SINKS = {
     'SendTrig': dict(rates=['ar', 'kr'], args=['eq', 'tag', 'sig'],
                      nochannels=True),
     'Free': dict(rates=['kr'], args=['sig', 'tag'], nochannels=True, nout=1),
+    # no bus argument: identified by its class (at most one per graph)
+    'LocalOut': dict(rates=['ar', 'kr'], args=[], unique=True),
 }
 
 
